@@ -66,7 +66,7 @@ func bodyStagesD(r *RuleCtx, depth int) []string {
 				return false
 			}
 			sig, _ := fn.Type().(*types.Signature)
-			if sig == nil || sig.Recv() == nil || namedOf(sig.Recv().Type()) == nil || namedOf(sig.Recv().Type()).Obj().Name() != "msgpipelineDelivery" {
+			if sig == nil || sig.Recv() == nil || namedOf(sig.Recv().Type()) == nil || objName(namedOf(sig.Recv().Type()).Obj()) != "msgpipelineDelivery" {
 				return false
 			}
 			d := r.C.P.DeclOf(fn)
@@ -167,7 +167,7 @@ func checkC06(c *Check) {
 	if pk != nil {
 		p.AllFuncs([]*packagesPkg{pk}, func(fi *FuncInfo) {
 			sig := fi.Obj.Type().(*types.Signature)
-			if sig.Recv() == nil || namedOf(sig.Recv().Type()) == nil || namedOf(sig.Recv().Type()).Obj().Name() != "msgpipelineDelivery" {
+			if sig.Recv() == nil || namedOf(sig.Recv().Type()) == nil || objName(namedOf(sig.Recv().Type()).Obj()) != "msgpipelineDelivery" {
 				return
 			}
 			r := &RuleCtx{C: c, FI: fi, F: p.FlowOfFunc(fi), Info: fi.Info()}
